@@ -401,6 +401,12 @@ def do_op(ctx, op, entry):
         e = ctx["e"]
         if e is not None:
             e.shutdown(wait=op[1], kill_workers=op[2])
+            if op[1]:
+                # what a waited shutdown promises at the moment it returns
+                entry["undone_at_return"] = sorted(k for k, f in rec.futures.items() if not f.done())
+                entry["managers_at_return"] = sum(
+                    1 for t in S.procs[K.PARENT_PID].threads
+                    if t.name.startswith("manager") and t.state != "done")
         del e
     elif name == "del":
         ctx["e"] = None
